@@ -19,15 +19,84 @@ ast <kind> a b c       -> ok ast <bracketed tree> | ok reject <token index> | ha
 resolve a | s3 r[E:E,+,E] acc   -> ok <action> | ok error | panic     (`resolveConflict`, actions in iteration order)
 compare a | x y        -> ok 1 | ok -1 | ok 0 | ok error             (`PrecedenceLevels.Compare`)
 climb id + id * id     -> ok <bracketed tree>                        (the precedence-climbing reference of the Spec)
+grammar                -> ok start=… T={…} N={…} P={…}   (the grammar as it stands, everything sorted; the harness prints
+                                                          the *grammar.CFG object it handed to the constructors)
+unprod S : a S         -> ok           (removes a production; with `prod`/`terms`/`nonterms`/`start` after a `build`:
+                                        the grammar edited between constructions — tables already built stay as they are)
+parsefail <kind> <k> a b c -> ok reject <i> | ok reject -1   (the lexer fails, with an error that is not io.EOF, when asked
+                                        for token number k: reject at i < k if the table objects earlier, else the lexer's
+                                        error, which has no position)
 ```
 State numbers are the implementation's (`BuildStateMap` order), not a renumbering.
+
+Header keys `cfg=` (one CFG object kept for the whole case / a fresh one per build), `layout=` (how the production bodies
+share backing arrays), `parser=` (one `lr.Parser` per table reused for every parse), `lex=` (how the lexer signals the end
+of input: `io.EOF`, a wrapped `io.EOF`, a junk token together with `io.EOF`) and `oracle=` describe HOW the harness uses
+the API; the Model is a pure function of the op lines, so they do not appear here: every such variation must give the
+same lines.
+
+Symbols by name: a word is `[marker] ++ encName name` as in harness/c10 (`EncName`/`DecName`): the marker `'` says
+terminal (written exactly when a declared non-terminal has the same word); `encName` writes the empty name as `%` and,
+byte by byte as `%XX`, every byte ≤ 0x20, 0x7F, `%`, the arrow `→`, a leading `'` or `^`, and the names `$` and `ε`
+altogether.  The driver decodes every word it reads (the Model runs on the names the Go code sees: the orderings compare
+`String()` renderings, `augment` appends primes to the start symbol's name) and encodes every name it prints.
 -/
 namespace AlgoVerif.C11.Driver
 open AlgoVerif AlgoVerif.Gram AlgoVerif.C11
 
-def tname (t : String) : String := if t = endmarker then "$" else t
+/-! ### names ⇄ words (the functions of harness/c10: `EncName`, `DecName`) -/
 
-def showProd (p : Pr) : String := p.head ++ "→" ++ ".".intercalate (p.body.map symName)
+def hexVal (b : UInt8) : Option UInt8 :=
+  if 48 ≤ b && b ≤ 57 then some (b - 48)
+  else if 65 ≤ b && b ≤ 70 then some (b - 55)
+  else if 97 ≤ b && b ≤ 102 then some (b - 87)
+  else none
+
+/-- `%XX` → the byte; any other byte (and a `%` that is not followed by two hex digits) stands for itself -/
+def decBytes : Nat → List UInt8 → List UInt8
+  | 0, l => l
+  | _, [] => []
+  | n + 1, b :: rest =>
+    if b = 37 then
+      match rest with
+      | h :: l :: rest' =>
+        match hexVal h, hexVal l with
+        | some x, some y => (x * 16 + y) :: decBytes n rest'
+        | _, _ => b :: decBytes n rest
+      | _ => b :: decBytes n rest
+    else b :: decBytes n rest
+
+/-- the name a word (without marker) stands for -/
+def decName (w : String) : String :=
+  if w = "%" then "" else
+  if !w.contains '%' then w else
+  let bs := w.toUTF8.toList
+  match String.fromUTF8? (ByteArray.mk (decBytes bs.length bs).toArray) with
+  | some s => s
+  | none => w
+
+def hexDigit (n : Nat) : Char := if n < 10 then Char.ofNat (48 + n) else Char.ofNat (55 + n)
+
+def escByte (b : UInt8) : String := String.ofList ['%', hexDigit (b.toNat / 16), hexDigit (b.toNat % 16)]
+
+def escChar (c : Char) : String := String.join ((String.singleton c).toUTF8.toList.map escByte)
+
+/-- the canonical word of a name -/
+def encName (s : String) : String :=
+  if s = "" then "%" else
+  if s = "$" || s = "ε" then String.join (s.toList.map escChar) else
+  let esc (first : Bool) (c : Char) : String :=
+    if c.toNat ≤ 32 || c.toNat = 127 || c = '%' || c = '→' || (first && (c = '\'' || c = '^')) then escChar c
+    else String.singleton c
+  match s.toList with
+  | [] => "%"
+  | c :: rest => esc true c ++ String.join (rest.map (esc false))
+
+def tname (t : String) : String := if t = endmarker then "$" else encName t
+
+def symWord (s : Sy) : String := encName (symName s)
+
+def showProd (p : Pr) : String := encName p.head ++ "→" ++ ".".intercalate (p.body.map symWord)
 
 def showAction : Action → String
   | .shift s => s!"s{s}"
@@ -41,15 +110,15 @@ def showCell (acts : List Action) : String := "/".intercalate (sortStrings (acts
 def showRow (T : Table) (i : Nat) : String :=
   let acts := (T.actions.filter (fun e => e.1.1 == (i : Int) && !e.2.isEmpty)).map
     fun e => tname e.1.2 ++ "=" ++ showCell e.2
-  let gts := (T.gotos.filter (fun e => e.1.1 == (i : Int))).map fun e => e.1.2 ++ "=>" ++ toString e.2
+  let gts := (T.gotos.filter (fun e => e.1.1 == (i : Int))).map fun e => encName e.1.2 ++ "=>" ++ toString e.2
   s!"{i}:" ++ ",".intercalate (sortStrings acts ++ sortStrings gts)
 
 def showTable (T : Table) : String :=
   s!"n={T.nstates} " ++ " ".intercalate ((List.range T.nstates).map (showRow T))
 
 def showItem (i : Item) : String :=
-  let b := i.prod.body.map symName
-  i.prod.head ++ "→" ++ ".".intercalate (b.take i.dot) ++ "•" ++ ".".intercalate (b.drop i.dot) ++
+  let b := i.prod.body.map symWord
+  encName i.prod.head ++ "→" ++ ".".intercalate (b.take i.dot) ++ "•" ++ ".".intercalate (b.drop i.dot) ++
     (match i.la with | some a => "," ++ tname a | none => "")
 
 def showStates (S : StateMap) : String :=
@@ -57,7 +126,7 @@ def showStates (S : StateMap) : String :=
 
 partial def showTree : Tree → String
   | .leaf t => tname t
-  | .node p ks => "(" ++ " ".intercalate (p.head :: ks.map showTree) ++ ")"
+  | .node p ks => "(" ++ " ".intercalate (encName p.head :: ks.map showTree) ++ ")"
   | .nil => "nil"
 
 /-! ### parsing the op arguments -/
@@ -72,18 +141,31 @@ def dropS (n : Nat) (w : String) : String := String.ofList (w.toList.drop n)
 
 def dropEndS (n : Nat) (w : String) : String := String.ofList (w.toList.take (w.toList.length - n))
 
-/-- a terminal that has the name of a non-terminal is spelled `'N` in case files -/
-def unq (w : String) : String := if w.startsWith "'" then dropS 1 w else w
+/-- the terminal a word names: a terminal that has the name of a non-terminal is spelled `'N` in case files -/
+def unq (w : String) : String := decName (if w.startsWith "'" then dropS 1 w else w)
 
 def unqSym : Sy → Sy
   | .term t => .term (unq t)
-  | s => s
+  | .nonterm n => .nonterm (decName n)
 
-/-- the grammar the Model works on: quotes stripped from terminal names -/
+/-- the grammar the Model works on: the names the words of the case file stand for -/
 def unqG (g : SGrammar) : SGrammar :=
-  { g with terms := g.terms.map unq, prods := g.prods.map fun p => { p with body := p.body.map unqSym } }
+  { terms := g.terms.map unq, nonterms := g.nonterms.map decName, start := decName g.start,
+    prods := g.prods.map fun p => { head := decName p.head, body := p.body.map unqSym } }
 
-def mkSym (g : SGrammar) (w : String) : Sy := if g.nonterms.contains w then Sym.nonterm w else Sym.term (unq w)
+/-- the grammar respelled in canonical words (old case files write names such as `^` as they are) -/
+def canonG (g : SGrammar) : SGrammar :=
+  let nts := g.nonterms.map fun n => encName (decName n)
+  let tw := fun (t : String) => let cw := encName (unq t); if nts.contains cw then "'" ++ cw else cw
+  let sw : Sy → Sy := fun s => match s with
+    | .term t => .term (tw t)
+    | .nonterm n => .nonterm (encName (decName n))
+  { terms := g.terms.map tw, nonterms := nts, start := encName (decName g.start),
+    prods := g.prods.map fun p => { head := encName (decName p.head), body := p.body.map sw } }
+
+/-- a symbol word of an op line (`g` is the grammar in words) -/
+def mkSym (g : SGrammar) (w : String) : Sy :=
+  if g.nonterms.contains w then Sym.nonterm (decName w) else Sym.term (unq w)
 
 /-- `[Head:X,Y]` -/
 def parseProdWord (g : SGrammar) (w : String) : Option Pr :=
@@ -93,7 +175,7 @@ def parseProdWord (g : SGrammar) (w : String) : Option Pr :=
     match inner.splitOn ":" with
     | h :: b1 :: bs =>
       let b := ":".intercalate (b1 :: bs)
-      some { head := h, body := ((b.splitOn ",").filter (· ≠ "")).map (mkSym g) }
+      some { head := decName h, body := ((b.splitOn ",").filter (· ≠ "")).map (mkSym g) }
     | _ => none
   else none
 
@@ -147,13 +229,13 @@ def validGrammar (g : SGrammar) : Bool :=
     p.body.all (fun s => match s with
       | .term t => g.terms.contains t
       | .nonterm n => g.nonterms.contains n)) &&
-  g.terms.all (fun t => !g.nonterms.contains t && t != endmarker) &&
-  !g.nonterms.contains (g.start ++ "′")
+  g.terms.all (fun t => !g.nonterms.contains t && unq t != endmarker)
 
 structure BuiltT where
   built : Built
   final : Table          -- after ResolveConflicts
   usable : Bool          -- false after `order-dependent`
+  g : SGrammar           -- the grammar (names) the table was built for: later grammar lines do not touch the table
 
 /-- `BuildParsingTable(G, precedences)` up to the iteration order of `resolveConflict` -/
 def runBuild (k : Kind) (g : SGrammar) (ls : List Level) : String × Option BuiltT :=
@@ -165,8 +247,8 @@ def runBuild (k : Kind) (g : SGrammar) (ls : List Level) : String × Option Buil
     else if ls.isEmpty then
       -- without levels every order gives the same result: `ResolveConflicts` as modelled, in list order
       match resolveAll ls (fun _ _ acts => acts) b.table with
-      | .ok (T, .table) => ("ok table " ++ showTable T, some { built := b, final := T, usable := true })
-      | .ok (T, .conflict) => ("ok conflict " ++ showTable T, some { built := b, final := T, usable := true })
+      | .ok (T, .table) => ("ok table " ++ showTable T, some { built := b, final := T, usable := true, g := g })
+      | .ok (T, .conflict) => ("ok conflict " ++ showTable T, some { built := b, final := T, usable := true, g := g })
       | .ok (_, .badPrecedences) => ("ok badprec", none)
       | .panic => ("panic", none)
       | .diverge => ("hang", none)
@@ -181,9 +263,9 @@ def runBuild (k : Kind) (g : SGrammar) (ls : List Level) : String × Option Buil
           | .panic => (acc.1, acc.2.1, acc.2.2.1, true)
       let (T, conflict, od, pn) := b.table.actions.foldl step (b.table, false, false, false)
       if pn then ("panic", none)
-      else if od then ("ok order-dependent", some { built := b, final := T, usable := false })
-      else if conflict then ("ok conflict " ++ showTable T, some { built := b, final := T, usable := true })
-      else ("ok table " ++ showTable T, some { built := b, final := T, usable := true })
+      else if od then ("ok order-dependent", some { built := b, final := T, usable := false, g := g })
+      else if conflict then ("ok conflict " ++ showTable T, some { built := b, final := T, usable := true, g := g })
+      else ("ok table " ++ showTable T, some { built := b, final := T, usable := true, g := g })
 
 structure St where
   g : SGrammar := SGrammar.empty
@@ -203,19 +285,40 @@ def St.set (st : St) (k : Kind) (b : Option BuiltT) : St :=
   | .lalr => { st with lalr := b }
   | .lr1 => { st with lr1 := b }
 
-def parseFuel : Nat := 200000
+/-- fuel of the driver loop: far above what a parse needs (the harness has a watchdog instead) -/
+def parseFuel (w : List String) : Nat := 200000 + 64 * w.length
 
 def runParse (st : St) (k : Kind) (w : List String) (ast : Bool) : String :=
   match st.get k with
   | some bt =>
     if !bt.usable then "ok no-table"
-    else match parse bt.final.toTbl parseFuel w with
+    else match parse bt.final.toTbl (parseFuel w) w with
       | .ok (.accept ps root) =>
         if ast then "ok ast " ++ showTree root else "ok accept " ++ ";".intercalate (ps.map showProd)
       | .ok (.reject k) => s!"ok reject {k}"
       | .panic => "panic"
       | .diverge => "hang"
   | none => "ok no-table"
+
+/-- a token no table has a column for: stands for "the lexer returned an error here" -/
+def lexError : String := "\x00lexer-error"
+
+/-- `parsefail`: the lexer fails when asked for token number `k` -/
+def runParseFail (st : St) (k : Kind) (at_ : Nat) (w : List String) : String :=
+  match st.get k with
+  | some bt =>
+    if !bt.usable then "ok no-table"
+    else match parse bt.final.toTbl (parseFuel w) (w.take at_ ++ [lexError]) with
+      | .ok (.accept _ _) => "ok accept-after-lexer-error"
+      | .ok (.reject i) => if i < at_ then s!"ok reject {i}" else "ok reject -1"
+      | .panic => "panic"
+      | .diverge => "hang"
+  | none => "ok no-table"
+
+/-- `Spec.showExpr` with the operator names written as words -/
+def showExprW : Spec.Expr → String
+  | .id => "(E id)"
+  | .bin l op r => "(E " ++ showExprW l ++ " " ++ encName op ++ " " ++ showExprW r ++ ")"
 
 def splitBar (ws : List String) : List String × List String :=
   (ws.takeWhile (· ≠ "|"), (ws.dropWhile (· ≠ "|")).drop 1)
@@ -254,11 +357,11 @@ def runCase (_hdr : List String) (ops : List String) : List String := Id.run do
     | ["check", k] =>
       match (parseKind k).bind st.get with
       | some bt =>
-        match Spec.tableCheck (unqG st.g) bt.built with
+        match Spec.tableCheck bt.g bt.built with
         | none =>
           -- a conflict-free table must also pass the check `C11_complete_validated` rests on
           let kd := (parseKind k).getD .lr1
-          if Spec.chkConflictFree bt.built.table && !Spec.completeOKFor kd (unqG st.g) bt.built then
+          if Spec.chkConflictFree bt.built.table && !Spec.completeOKFor kd bt.g bt.built then
             out := out.push "ok invalid completeness-validator"
           else out := out.push "ok valid"
         | some why => out := out.push ("ok invalid " ++ why)
@@ -286,6 +389,20 @@ def runCase (_hdr : List String) (ops : List String) : List String := Id.run do
         if s = "panic" || s = "hang" then dead := true
         out := out.push s
       | none => out := out.push "bad-op"
+    | "parsefail" :: k :: n :: w =>
+      match parseKind k, n.toNat? with
+      | some k, some n =>
+        if n > w.length then out := out.push "bad-op" else
+        let s := runParseFail st k n (w.map unq)
+        if s = "panic" || s = "hang" then dead := true
+        out := out.push s
+      | _, _ => out := out.push "bad-op"
+    | ["grammar"] => out := out.push ("ok " ++ showGrammar (canonG st.g))
+    | "unprod" :: h :: ":" :: body =>
+      let b : List Sy := body.map fun w => if st.g.nonterms.contains w then Sym.nonterm w else Sym.term w
+      let p : Pr := { head := h, body := b }
+      st := { st with g := { st.g with prods := st.g.prods.filter (fun q => q != p) } }
+      out := out.push "ok"
     | "resolve" :: rest =>
       let (l, r) := splitBar rest
       match l, r.mapM (parseAction st.g) with
@@ -314,7 +431,7 @@ def runCase (_hdr : List String) (ops : List String) : List String := Id.run do
       | _, _ => out := out.push "bad-op"
     | "climb" :: w =>
       match Spec.climb st.levels (w.map unq) with
-      | some t => out := out.push ("ok " ++ Spec.showExpr t)
+      | some t => out := out.push ("ok " ++ showExprW t)
       | none => out := out.push "ok reject"
     | _ => out := out.push "bad-op"
   return out.toList
